@@ -10,6 +10,11 @@ CHECKS = {
          "Held on the executions observed: every generated function in py/ts/js/rs is judged against its constructed depth for every limit 1..depth+2, plus metamorphic relations; evidence lists functions, construct kinds and limits seen.",
          "Trusted: the generator's abstract depth, the message regex, CPython ast / bare tree-sitter for syntax checking of generated files. else-if chains in brace languages and nested named functions are not generated (documentation silent).",
          "DESIGN.md section 4 C01"),
+
+ "C06": ("runtime monitoring: process-boundary trace (exit status + stdout bytes) of the same run under --format text/json/sarif; offline checker with independent extractors, structural SARIF 2.1.0 validator, exit-code law, usage-error classes",
+         "Held on the executions observed: all 20 linter commands x 3 formats over trigger projects with zero/one/many violations, hostile names and messages, and 14 usage-error classes; evidence lists commands, record counts and classes seen.",
+         "Trusted: the extractors in vlib/oracles/formats.py; text form path[:line][:column]; text not judged when a path or message contains a newline; group-level --config (application config, documented fallback to defaults) is not treated as a usage error.",
+         "DESIGN.md section 4 C06"),
 }
 PENDING = {}
 props = [json.loads(l) for l in open(os.path.join(HERE, "properties.jsonl"))]
